@@ -126,6 +126,11 @@ def builders(model):
     B['ProductSpaceOperator[[P2, P3], [0, P2]]'] = lambda I: inst(
         I, 'ProductSpaceOperator', [[pw(I), pw(I, 'const', 3)],
                                     [0, pw(I)]])
+    # functionals are operators into the field: their derivative(x)(d) is
+    # decided on the instances of the C09 tier as well
+    from . import c09b
+    for name, b in c09b.builders(model).items():
+        B['functional:' + name] = b
     return B
 
 
@@ -234,4 +239,4 @@ def run(rep, model):
             rep.holds('R8', name, 'derivative(x)(d) is the differential of '
                       'the evaluated A(x) in direction d (%d entries)'
                       % len(r['ys']))
-    rep.floor('R8', 'evaluated operator instances', n, 50)
+    rep.floor('R8', 'evaluated operator instances', n, 140)
